@@ -175,6 +175,11 @@ Outcome execute(const std::vector<sim::Op>& plan, int prop, std::uint64_t env_se
     rc.known = known;
     sim::g_run = &rc;
     sim::g_ledger.reset();
+    // every run starts from the same value-type state: a run is a pure function of its seed
+    sim::g_pod_counter = 0;
+    sim::g_sticky_counter = 0;
+    sim::g_float_zero_counter = 0;
+    sim::g_value_throw_countdown = 0;
     sim::g_heap.begin_run(env_seed, true);
     sim::g_heap.log = &rc.log;
     H* h = new H(rc);
